@@ -56,6 +56,17 @@ func init() {
 		writeJSON(*out, map[string]interface{}{"histories": *n, "ops": ops, "problems": problems, "samples": samples})
 		return 0
 	})
+	register("timeloc", func(args []string) int {
+		fs := flag.NewFlagSet("timeloc", flag.ExitOnError)
+		out := fs.String("out", "-", "report")
+		fs.Parse(args)
+		ps := conc.TimeLocalFirstUse()
+		if ps == nil {
+			ps = []conc.Problem{}
+		}
+		writeJSON(*out, map[string]interface{}{"problems": ps})
+		return 0
+	})
 	register("conc-compose", func(args []string) int {
 		fs := flag.NewFlagSet("conc-compose", flag.ExitOnError)
 		seed := fs.Int64("seed", 1, "seed")
